@@ -266,7 +266,7 @@ impl<'a> FontRead<'a> for SimpleGlyph {
 impl FontWrite for SimpleGlyph {
     fn write_into(&self, writer: &mut crate::TableWriter) {
         assert!(self.contours.len() < i16::MAX as usize);
-        assert!(self.instructions.len() < u16::MAX as usize);
+        assert!(self.instructions.len() <= u16::MAX as usize);
         let n_contours = self.contours.len() as i16;
         if n_contours == 0 {
             // we don't bother writing empty glyphs
